@@ -189,7 +189,9 @@ func psessTier(r *vh.Rng, out *vh.Out, tier string) map[string]interface{} {
 			cls = fmt.Sprintf("after-unprepared/page%d", at)
 		}
 		c := consumers[r.Intn(4)]
-		jobs = append(jobs, job{mk(ws.ver, c, ws.prefetch, ws.pageSize, ws.kind, sc), "psess/" + c + "/" + cls})
+		op := mk(ws.ver, c, ws.prefetch, ws.pageSize, ws.kind, sc)
+		op = strings.Replace(op, fmt.Sprintf("psess v%d ", ws.ver), "psess "+ws.vtok()+" ", 1) // delay / compression of the walk scenario
+		jobs = append(jobs, job{op, "psess/" + c + "/" + cls})
 	}
 	res := make([]string, len(jobs))
 	var wg sync.WaitGroup
